@@ -773,9 +773,61 @@ def check_clean_directory_output(problems):
     return tried
 
 
+def check_touch_large_diamond(problems):
+    """C16 on a cone that is larger than any small cache: a dependency shared by two long arms is touched once, before
+    everything that depends on it (real touch_workflow, the order of Path.touch calls is recorded)"""
+    import pathlib
+    from gwf.core import Graph, Target
+    from gwf.plugins.touch import touch_workflow
+    n = 200
+    ts = {"base": Target(name="base", inputs=[], outputs=["base.txt"], options={}, working_dir="/w")}
+    for arm in ("l", "r"):
+        prev = "base.txt"
+        for i in range(n):
+            nm = f"{arm}{i}"
+            ts[nm] = Target(name=nm, inputs=[prev], outputs=[nm + ".txt"], options={}, working_dir="/w")
+            prev = nm + ".txt"
+    ts["top"] = Target(name="top", inputs=[f"l{n - 1}.txt", f"r{n - 1}.txt"], outputs=["top.txt"], options={}, working_dir="/w")
+
+    class FS:
+        def exists(self, p):
+            return False
+
+        def changed_at(self, p):
+            raise FileNotFoundError(p)
+
+    class NoHashes:
+        def update(self, t):
+            pass
+
+    g = Graph.from_targets(ts, FS())
+    real_touch, order = pathlib.Path.touch, []
+    pathlib.Path.touch = lambda self, *a, **k: order.append(os.path.basename(str(self)))
+    try:
+        touch_workflow(g.endpoints(), g, NoHashes())
+    finally:
+        pathlib.Path.touch = real_touch
+    pos = {}
+    for i, f in enumerate(order):
+        pos.setdefault(f, []).append(i)
+    if sorted(pos) != sorted(t.name + ".txt" for t in ts.values()):
+        problems.append(f"large diamond: touched {len(pos)} distinct files, the cone has {len(ts)} outputs")
+    for t in ts.values():
+        for i_ in t.inputs:
+            dep = os.path.basename(i_)
+            if dep in pos and (t.name + ".txt") in pos and max(pos[dep]) > min(pos[t.name + ".txt"]):
+                problems.append(f"large diamond (two arms of {n} targets over one shared dependency): {dep} is touched again "
+                                f"(call #{max(pos[dep])}) after its dependent {t.name}.txt (call #{min(pos[t.name + '.txt'])})")
+                return 1
+    return 1
+
+
 def run_c16(seed, focus):
     """gwf touch: afterwards the cone looks completed; nothing outside is touched, contents are kept"""
     problems, tried = [], 0
+    tried += check_touch_large_diamond(problems)
+    if problems:
+        return result(problems, tried, "touch")
     for wname, targets in WORKFLOWS.items():
         deps = deps_of(targets)
         for args in ([], [targets[-1]["name"]], [targets[0]["name"]], ["nomatch"]):
